@@ -64,7 +64,7 @@ def run(run, args, prop="C03"):
     run.cov.update({"evaluations": len(recs), "distinct_nontrivial": len(set(res[4])),
                     "rule": "every single atom of the table (default request) + random compositions of 1-5 elements (3 of 4 from elements whose "
                             "ladder BRAIN reads faithfully, 1 of 4 also from the gap elements), counts up to 200 (1 in 6: up to 3000), both "
-                            "representations, rotated key order, requests {default, fixed 1..300, usize, Option, f32 fraction}, charges -8..8, four carriers; "
+                            "representations, rotated key order, the struct entry point IsotopicDistribution::from_composition(..).isotopic_variants(..) on every fifth, requests {default, fixed 1..300, usize, Option, f32 fraction}, charges -8..8, four carriers; "
                             "specification = exact polynomial expansion in outward-rounded binary64 enclosures; non-trivial = more than one peak returned",
                     "tags": dict(tags), "atom_count_histogram": {str(k): v for k, v in sorted(atoms.items())},
                     "spec_undecided_cases": len(undecided), "known_finding_cases": sum(len(v) for v in knowns.values()),
